@@ -1,0 +1,61 @@
+//go:build verif
+
+package ringhash
+
+// Contracts checked by /verif (contract-based deductive verification).
+// This file is comment-only; it is compiled only with -tags=verif.
+
+//@ import connectivity "google.golang.org/grpc/connectivity"
+
+// ---- C37: walking the ring -------------------------------------------------------------------------
+//
+// Ring invariant (established by newRing: entries sorted by hash, idx = position).
+
+//@ spec func ringOK(r *ring) bool {
+//@   return r != nil && len(r.items) > 0 &&
+//@     forall(func(j int) bool { return implies(0 <= j && j < len(r.items), r.items[j] != nil && r.items[j].idx == j) }) &&
+//@     forall(func(j int) bool { return implies(0 <= j && j+1 < len(r.items), r.items[j].hash <= r.items[j+1].hash) })
+//@ }
+
+// pick(h): the first entry clockwise whose hash is at least h -- the entry at the
+// position binary search returns, which has hash >= h while its predecessor has
+// hash < h -- wrapping to entry 0 when every hash is below h.
+//@ func (*ring).pick
+//@   prop C37
+//@   nopanic
+//@   requires ringOK(r)
+//@   ensures result != nil && result == r.items[result.idx] && 0 <= result.idx && result.idx < len(r.items)
+//@   assert at return 1 0 <= lastret("Search") && lastret("Search") <= Z(len(r.items)) && Z(i) == ite(lastret("Search") == Z(len(r.items)), Z(0), lastret("Search"))
+//@   assert at return 1 implies(lastret("Search") < Z(len(r.items)), r.items[i].hash >= h && implies(i > 0, r.items[i-1].hash < h))
+//@   assert at return 1 implies(lastret("Search") == Z(len(r.items)), r.items[len(r.items)-1].hash < h && i == 0)
+
+// next(e): the entry after e, wrapping around.
+//@ func (*ring).next
+//@   prop C37
+//@   nopanic
+//@   requires ringOK(r) && e != nil && 0 <= e.idx && e.idx < len(r.items)
+//@   ensures result == r.items[(e.idx+1)%len(r.items)] && result != nil
+
+//@ spec func stateAt(p *picker, k int) connectivity.State {
+//@   return p.endpointStates[p.ring.items[k].hashKey].state.ConnectivityState
+//@ }
+
+// Pick. With a request hash (loop 1): the walk starts at ring.pick(hash), visits
+// consecutive ring positions, skips entries whose endpoint is in
+// TRANSIENT_FAILURE, and delegates to the first one that is READY, CONNECTING or
+// IDLE. With a random hash (loop 2): it delegates to the first READY endpoint and
+// asks at most one IDLE endpoint to connect, and none if some endpoint is
+// already CONNECTING.
+//@ func (*picker).Pick
+//@   prop C37
+//@   opt maypanic
+//@   opt purecalls randUint64 exitIdle
+//@   requires p != nil && ringOK(p.ring)
+//@   loop 1 invariant 0 <= i && i <= ringSize && ringSize == len(p.ring.items) && ringOK(p.ring) && e != nil && 0 <= e.idx && e.idx < ringSize
+//@   loop 2 invariant 0 <= i && i <= ringSize && ringSize == len(p.ring.items) && ringOK(p.ring) && e != nil && 0 <= e.idx && e.idx < ringSize
+//@   loop 2 invariant ncalls("Pick") == 0 && 0 <= ncalls("exitIdle") && ncalls("exitIdle") <= 1 && implies(ncalls("exitIdle") == 1, requestedConnection && !p.hasEndpointInConnectingState) && implies(p.hasEndpointInConnectingState, requestedConnection)
+//@   assert at call pick#1 arg0 == p.ring && arg1 == requestHash
+//@   assert at call Pick#1 index == (e.idx+i)%ringSize && (stateAt(p, index) == connectivity.Ready || stateAt(p, index) == connectivity.Connecting || stateAt(p, index) == connectivity.Idle)
+//@   assert at call Pick#2 index == (e.idx+i)%ringSize && stateAt(p, index) == connectivity.Ready
+//@   assert at call exitIdle#1 ncalls("exitIdle") == 0 && !p.hasEndpointInConnectingState && stateAt(p, index) == connectivity.Idle
+//@   assert at return 4 ncalls("Pick") == 0 && ncalls("exitIdle") <= 1 && requestedConnection
